@@ -18,7 +18,14 @@ fn to_float(value: Value) -> Resolved {
         Timestamp(v) => {
             let nanoseconds = match v.timestamp_nanos_opt() {
                 Some(nanos) => nanos as f64,
-                None => return Err(ValueError::OutOfRange(Kind::timestamp()).into()),
+                // beyond the i64 range of nanoseconds (years before 1678 or after 2262): the
+                // call is typed infallible, so convert seconds and the fraction separately
+                None => {
+                    return Ok(Value::from_f64_or_zero(
+                        v.timestamp() as f64
+                            + f64::from(v.timestamp_subsec_nanos()) / 1_000_000_000_f64,
+                    ));
+                }
             };
             Ok(Value::from_f64_or_zero(nanoseconds / 1_000_000_000_f64))
         }
